@@ -16,8 +16,8 @@ cd $WT
 LOG=/tmp/confirm/$P-$ID.log; : > $LOG
 git apply $OUT/change$N.diff >>$LOG 2>&1 || { echo "$P-$N: PATCH-DOES-NOT-APPLY"; exit 1; }
 if git diff --name-only | grep -E '_test\.go$|testutil|\.pb\.go$' >/dev/null; then echo "$P-$N: PATCH-TOUCHES-TESTS"; exit 1; fi
-go build ./... >>$LOG 2>&1 || { echo "$P-$N: BUILD-FAILS"; exit 1; }
-go test -vet=off -count=1 -timeout 25m ./... >$LOG.suite 2>&1
+go build -trimpath ./... >>$LOG 2>&1 || { echo "$P-$N: BUILD-FAILS"; exit 1; }
+go test -trimpath -vet=off -count=1 -timeout 25m ./... >$LOG.suite 2>&1
 if grep -E '^(FAIL|---\s*FAIL|panic:)' $LOG.suite >/dev/null; then echo "$P-$N: EXISTING-TESTS-FAIL"; grep -E '^(FAIL|--- FAIL)' $LOG.suite | head -5; exit 1; fi
 DIR=$(sed -n 1p $OUT/demo$N.where | tr -d '\r'); CMD=$(sed -n 2p $OUT/demo$N.where | tr -d '\r')
 cp $OUT/demo${N}_test.go $DIR/zz_seed_demo${N}_test.go
